@@ -457,4 +457,21 @@ def c01(ctx):
     return res
 
 
-PLUGINS = {"C01": c01, "C20": c20, "C14": c14, "C18": c18, "C15": c15, "C13": c13, "C08": c08, "C11": c11, "C02": c02, "C06": c06, "C10": c10, "C05": c05, "C09": c09, "C04": c04, "C07": c07, "C12": c12}
+def c19(ctx):
+    """C19 integrity check: consistent databases from generated histories, then a sweep of single structural corruptions of each (drop / duplicate a freelist id, list a reachable page or an overflow page of a reachable
+    run as free - replacing an id and appended -, point two branch elements at one child, overwrite a page's flags with five values, swap / duplicate adjacent keys, lower a leaf's first key, raise its last key);
+    every file is checked by Tx.Check and by `bbolt check` in a CHILD process (a fault after the first report counts as reported); whether a mutation corrupted anything is decided by the extracted decoder
+    (decodable, key order, Layout.accounted), never by construction; all three verdicts must agree, in both directions."""
+    res = Result()
+    res.rule = "one case = one database and up to 150 (quick) / 600 (thorough) mutated copies; evaluations = files checked; distinct by MD5 of the base file; non-trivial if at least one mutation was judged corrupt and one harmless"
+    with ctx:
+        quick = ctx.tier == "quick" or ctx.budget_s
+        runs = run_sharded(ctx, "c19", 8 if ctx.tier == "quick" else 16,
+                           lambda i: ["-seed", str(ctx.seed * 1000 + i), "-n", "2" if quick else "14", "-maxmut", "150" if quick else "600", "-dir", "{dir}"],
+                           ctx.budget_s or (900 if ctx.tier == "quick" else 3300))
+        for r in runs:
+            absorb(res, "C19", *r)
+    return res
+
+
+PLUGINS = {"C19": c19, "C01": c01, "C20": c20, "C14": c14, "C18": c18, "C15": c15, "C13": c13, "C08": c08, "C11": c11, "C02": c02, "C06": c06, "C10": c10, "C05": c05, "C09": c09, "C04": c04, "C07": c07, "C12": c12}
